@@ -66,7 +66,17 @@ def o3(ctx: Ctx):
     order = [norm(v.func).split(".")[-1] for _, v, _ in cand_steps]
     ok = order == ["candidates_generator", "apply_deme_filters", "apply_tree_filters"]
     name = cand_steps[0][0] if cand_steps else "?"
-    threaded = ok and [norm(a) for a in cand_steps[1][1].args] == [cand_steps[0][0], tree_p] and [norm(a) for a in cand_steps[2][1].args] == [cand_steps[1][0], tree_p]
+    def fed_from(arg_call, prev_name):
+        """the step's first argument is the previous step's result, possibly with the candidate-less parents dropped in between"""
+        a = [norm(x) for x in arg_call.args]
+        if a == [prev_name, tree_p]:
+            return True
+        if len(arg_call.args) == 2 and isinstance(arg_call.args[0], ast.Name) and norm(arg_call.args[1]) == tree_p:
+            gd = local_defs(gs).get(arg_call.args[0].id, [])
+            return any(isinstance(d, ast.DictComp) and len(d.generators) == 1 and canon(d.generators[0].iter).removesuffix(".keys()") == prev_name and isinstance(d.generators[0].target, ast.Name) and canon(d.value) == f"{prev_name}[{d.generators[0].target.id}]" for d in gd)
+        return False
+
+    threaded = ok and fed_from(cand_steps[1][1], cand_steps[0][0]) and fed_from(cand_steps[2][1], cand_steps[1][0])
     if ok and threaded:
         name = cand_steps[2][0]
         st_chain = OK
@@ -152,6 +162,11 @@ def o3(ctx: Ctx):
                 st_m = VIOLATION  # result of a filter discarded
         elif not loops and not any(chain_attr in norm(x) for x in body_walk(m.node) if isinstance(x, ast.Attribute)):
             st_m = VIOLATION  # the chain is not consulted at all
+        if st_m != OK and len(loops) == 1 and isinstance(loops[0].target, ast.Name):
+            fv0 = loops[0].target.id
+            partial = [c for c in ast.walk(loops[0]) if isinstance(c, ast.Call) and norm(c.func) == fv0 and c.args and isinstance(c.args[0], (ast.Dict, ast.DictComp))]
+            if partial:
+                st_m = VIOLATION  # a filter of the chain is handed a sub-mapping: a level-wide filter no longer sees all parents of the level
         mr = [r for r in body_walk(m.node) if isinstance(r, ast.Return)]
         if st_m == OK and not (len(mr) == 1 and mr[0].value is not None and norm(mr[0].value) == cp):
             st_m = INCONCLUSIVE
@@ -316,6 +331,16 @@ def o4(ctx: Ctx, ties_matter: bool = True):
         comp = Aexp.args[0]
         g = comp.generators[0]
         v = g.target.id if isinstance(g.target, ast.Name) else "?"
+        # a pre-filtered local list as the source: fold its filter into this one
+        if isinstance(g.iter, ast.Name) and len(defs.get(g.iter.id, [])) == 1 and isinstance(defs[g.iter.id][0], ast.ListComp) and len(defs[g.iter.id][0].generators) == 1:
+            inner = defs[g.iter.id][0]
+            ig = inner.generators[0]
+            if isinstance(ig.target, ast.Name) and norm(inner.elt) == ig.target.id:
+                from ..normalize import _subst
+
+                extra = [_subst(c, {ig.target.id: ast.Name(id=v, ctx=ast.Load())}) for c in ig.ifs]
+                g = ast.comprehension(target=g.target, iter=ig.iter, ifs=list(g.ifs) + extra, is_async=0)
+                ast.fix_missing_locations(g)
         it = canon(g.iter, {k: d for k, d in defs.items() if k != lv})
         src_ok = it in (f"{tree_p}.levels[{lv}+1]", f"{tree_p}._levels[{lv}+1]", f"{tree_p}.levels[1+{lv}]")
         src_levels = it.startswith((f"{tree_p}.levels[", f"{tree_p}._levels["))
